@@ -18,6 +18,7 @@ import itertools
 import json
 import multiprocessing
 import os
+import sqlite3
 import sys
 from pathlib import Path
 
@@ -105,6 +106,18 @@ def secret_for(tname, mat):
     return kdrv.secret_for(ot)
 
 
+def refs(op):
+    """Offsets of the objects an operation addresses."""
+    k = op[0]
+    if k in ('Create', 'CreateKeyPair', 'Register'):
+        return []
+    if k == 'DeriveKey':
+        return list(op[1])
+    if k == 'GetWrap':
+        return [op[1], op[2]]
+    return [op[1]]
+
+
 # ---------------------------------------------------------------------------------------- the implementation driver
 class Runner:
     def __init__(self, workdir, material):
@@ -114,6 +127,7 @@ class Runner:
         self.base = 1
         self.histories = 0
         self.crypto = None
+        self.sql = None
 
     def fresh(self):
         if self.eng is not None:
@@ -121,6 +135,9 @@ class Runner:
         self.eng = kdrv.Engine(workdir=self.workdir)
         self.base = 1
         self.histories = 0
+        if self.sql is not None:
+            self.sql.close()
+        self.sql = sqlite3.connect(self.eng.path, isolation_level=None)
         ce = self.eng.engine._cryptography_engine
         runner = self
         mat = self.mat
@@ -143,6 +160,9 @@ class Runner:
             setattr(ce, name, wrapped)
 
     def close(self):
+        if self.sql is not None:
+            self.sql.close()
+            self.sql = None
         if self.eng is not None:
             self.eng.close()
             self.eng = None
@@ -205,29 +225,53 @@ class Runner:
             return kdrv.get(u(op[1]), wrap=spec)
         raise ValueError(op)
 
-    # ---- observation through GetAttributes
-    def view(self, last):
-        """{uid: None (absent) | (Object Type, State or None, mask)} for every uid of the window."""
+    # ---- observation
+    def ga_view(self, uids):
+        """{uid: None (absent) | (Object Type, State or None, mask)} read with GetAttributes."""
         out = {}
-        uids = list(range(self.base, last + 1))
+        uids = sorted(set(uids))
         if not uids:
             return out
-        r = self.eng.request([kdrv.get_attributes(str(x), ATTRS) for x in uids],
+        req = self.eng.build([kdrv.get_attributes(str(x), ATTRS) for x in uids],
                              batch_option=enums.BatchErrorContinuationOption.CONTINUE, ids=True)
-        if r['error'] is not None or len(r['items']) != len(uids):
-            raise RuntimeError('GetAttributes batch failed: %r' % (r['error'],))
-        for x, it in zip(uids, r['items']):
-            if not kdrv.ok(it):
-                if it['reason'] == 'ITEM_NOT_FOUND':
+        resp, _, _ = self.eng.engine.process_request(req, ('alice', None))
+        items = resp.batch_items
+        if len(items) != len(uids):
+            raise RuntimeError('GetAttributes batch answered %d of %d items' % (len(items), len(uids)))
+        for x, bi in zip(uids, items):
+            if bi.result_status.value != enums.ResultStatus.SUCCESS:
+                if bi.result_reason.value == enums.ResultReason.ITEM_NOT_FOUND:
                     out[x] = None
                     continue
-                raise RuntimeError('GetAttributes on %d failed: %s %s' % (x, it['reason'], it['message']))
+                raise RuntimeError('GetAttributes on %d failed: %s' % (x, bi.result_reason.value.name))
             d = {}
-            for a in it['raw'].response_payload.attributes:
+            for a in bi.response_payload.attributes:
                 d[a.attribute_name.value] = a.attribute_value.value
             st = d.get('State')
             out[x] = (d['Object Type'].name, st.name if st is not None else None, int(d.get('Cryptographic Usage Mask', 0)))
         return out
+
+    def sql_view(self, last):
+        """The same triple for every object of the window, read from the tables (managed_objects left join crypto_objects)."""
+        out = {x: None for x in range(self.base, last + 1)}
+        if not out:
+            return out
+        for u, t, st, m in self.sql.execute(
+                'select m.uid, m.object_type, c.state, c.cryptographic_usage_mask from managed_objects m '
+                'left join crypto_objects c on c.uid = m.uid where m.uid between ? and ?', (self.base, last)):
+            out[u] = (enums.ObjectType(t).name, enums.State(st).name if st is not None else None, int(m or 0))
+        return out
+
+    def view(self, last, addressed, full=False):
+        """Attributes of every object of the window after a step.  The objects the step addressed (and, at the end
+        of a history, all objects) are read with GetAttributes; the others from the tables, which is where
+        GetAttributes reads them from.  Where both were read they must agree."""
+        v = self.sql_view(last)
+        ga = self.ga_view(list(v) if full else [x for x in addressed if x in v])
+        for x, a in ga.items():
+            if v[x] != a:
+                raise RuntimeError('GetAttributes and the tables differ for %d: %r vs %r' % (x, a, v[x]))
+        return v
 
     def classify(self, item, crypto):
         if kdrv.ok(item):
@@ -251,24 +295,23 @@ class Runner:
         last = base - 1
         steps = []
         before = {}
-        for op in ops:
+        for n, op in enumerate(ops):
             self.crypto = None
             r = self.eng.request([self.build(op)])
             if r['error'] is not None:
                 raise RuntimeError('request-level error for %r: %r' % (op, r['error']))
             item = r['items'][0]
             crypto = self.crypto
+            new = []
             if kdrv.ok(item):
                 p = item['payload'] or {}
                 if op[0] == 'CreateKeyPair':
                     new = [int(p['public_key_unique_identifier']), int(p['private_key_unique_identifier'])]
                 elif op[0] in ('Create', 'Register', 'DeriveKey'):
                     new = [int(p['unique_identifier'])]
-                else:
-                    new = []
                 if new:
                     last = max([last] + new)
-            after = self.view(last)
+            after = self.view(last, new + [base + k for k in refs(op) if k >= 0], full=(n == len(ops) - 1))
             steps.append({'op': op, 'cok': not (crypto and crypto['raised']), 'out': self.classify(item, crypto),
                           'called': crypto is not None, 'status': item['status'], 'reason': item['reason'],
                           'message': item['message'], 'before': before, 'after': after,
@@ -461,9 +504,9 @@ def grid():
         for state in ('PRE_ACTIVE', 'ACTIVE', 'DEACTIVATED', 'COMPROMISED'):
             if t == 'OpaqueData' and state != 'PRE_ACTIVE':
                 continue
-            for route in reach(state):
+            for ri, route in enumerate(reach(state)):
                 for opname, bitname in uses.items():
-                    for mclass in ('full', 'only', 'lacking', 'zero'):
+                    for mclass in (('full', 'only', 'lacking', 'zero') if ri == 0 else ('full',)):
                         m = {'full': FULL, 'only': BIT[bitname], 'lacking': FULL & ~BIT[bitname], 'zero': 0}[mclass]
                         # object 0: the object under test; object 1: an active fully-masked symmetric key
                         setup = [('Register', t, m), ('Create', FULL), ('Activate', 1)] + route
@@ -661,6 +704,17 @@ def jsonable(res, upto=None):
 
 
 # ---------------------------------------------------------------------------------------- the check
+def load_own_findings(ctx):
+    """findings.d/C04.json is the source bin/mkmanifest merges into known_findings.json; read it directly as well so
+    that the check does not depend on the merge having been run."""
+    p = Path(__file__).resolve().parents[1] / 'findings.d' / 'C04.json'
+    if p.exists():
+        have = {f.get('id') for f in ctx.findings}
+        for f in json.loads(p.read_text()):
+            if f.get('property') == 'C04' and f.get('id') not in have:
+                ctx.findings.append(f)
+
+
 def run(ctx):
     ctx.cov['rule'] = (
         'histories on the real KmipEngine: (a) for each scenario (two symmetric keys from nothing; two keys, one active; an RSA pair; '
@@ -673,6 +727,7 @@ def run(ctx):
         'harness/c04.py: request builders, GetAttributes reader, classification of failures by result reason + message text',
         'the model covers one identity owning every object under the default policy; creation requests are well formed',
     ]
+    load_own_findings(ctx)
     ctx.prove('props/C04.v')
     histories = all_histories(ctx)
     ctx.log('%d histories, %d operations' % (len(histories), sum(len(h) for _, h in histories)))
